@@ -454,6 +454,45 @@ def _entry_conditions(ctx, run, fin):
                            construct='%s entry condition' % callee)
     ctx.require(count >= 2, 'callers of the start / finish network '
                             'routines', rule='C16.1')
+    # what finish needs to know to undo a start (addresses, ports) is on
+    # disk before the start registers anything: a start that fails half way
+    # through is cleaned up from that record
+    for func in run.live_functions():
+        calls = [c for c in K.calls(func.node)
+                 if isinstance(c.func, ast.Name) and
+                 c.func.id == '_unshare_network']
+        if not calls:
+            continue
+        graph = ctx.cfg(func)
+        saves = [n for n, c in K.nodes_calling(
+            graph, lambda c: K.callee_text(c).endswith('save_app'))]
+        for node, call in K.nodes_calling(graph, lambda c: c in calls):
+            ok = bool(saves) and K.guarded_by(
+                graph, node, lambda e: e.src in saves and e.kind != 'exc')
+            ctx.ob('C16.1', func, node, ok,
+                   'the container state is saved before the network of the '
+                   'container is set up (finish reads it to undo a start '
+                   'that failed half way)',
+                   construct='state saved before registrations')
+    # ... and finish falls back on the bare-bones stand-in (which has no
+    # network attributes, so nothing is torn down) only for a state file
+    # that is corrupt; a file that cannot be read now makes the finish fail
+    # and be tried again
+    rt = ctx.index.module(RT)
+    safe = rt.functions.get('load_app_safe') if rt else None
+    ctx.require(safe is not None, 'runtime.load_app_safe', rule='C16.3')
+    caught = set()
+    for sub in K.walk_no_nested(safe.raw):
+        if isinstance(sub, ast.ExceptHandler):
+            if sub.type is None:
+                caught.add('*')
+            elif isinstance(sub.type, ast.Tuple):
+                caught |= set(N.txt(e) for e in sub.type.elts)
+            else:
+                caught.add(N.txt(sub.type))
+    ctx.ob('C16.3', safe, None, caught == {'ValueError'},
+           'load_app_safe stands in for a corrupt state file only (handles '
+           '%s)' % sorted(caught), construct='stand-in only for corrupt state')
     # the finish side is reached on every completed finish of a container
     # with a private network - also when an earlier step failed in a way its
     # handler tolerates
@@ -802,7 +841,7 @@ def _registrars(ctx):
 
 
 def check(ctx):
-    if ctx.tier == 'thorough':
+    if ctx.tier in ('quick', 'thorough'):   # whole-package clause, cheap enough for every run
         _registrars(ctx)
     start, stop, created, removed, run, fin = _coverage(ctx)
     _entry_conditions(ctx, run, fin)
